@@ -1,13 +1,18 @@
 --------------------------- MODULE MC_ZincStream ---------------------------
 (***************************************************************************)
 (* ZincStream checked for every grid body of length <= MaxLen over          *)
-(* { '1', '2', ',', NL }, every reader schedule (Interrupted up to MaxIntr  *)
+(* { '1', '2', ',', NL, 'x' }, every reader schedule (Interrupted up to MaxIntr  *)
 (* times in a row before any byte) and an I/O error at every offset.        *)
 (***************************************************************************)
-EXTENDS ZincStream
+EXTENDS ZincStream, Json
 CONSTANTS MaxLen
-Bytes == {49, 50, 44, 10}
+Bytes == {49, 50, 44, 10, 120}        \* 1 2 , NL x (x: a byte no cell of this sub-language starts with)
 RECURSIVE Seqs(_)
 Seqs(n) == IF n = 0 THEN {<<>>} ELSE LET s == Seqs(n - 1) IN s \cup {Append(x, b) : x \in {y \in s : Len(y) = n - 1}, b \in Bytes}
 MCDatas == Seqs(MaxLen)
+\* one vector per terminal state: the body, the failure offset, how the machine ended, the rows it handed out with the
+\* reader offset at each hand-out, and the rows of the body - replayed through the real lazy iterator (dec.stream)
+Emit == (pc = "done" \/ err # "none") =>
+           PrintT("VEC " \o ToJson([op |-> "dec.stream", body |-> Data, fail_at |-> FailAt, merr |-> err, mrows |-> rows,
+                                     myield |-> yieldedAt, mref |-> RefRows]))
 =============================================================================
